@@ -55,9 +55,9 @@ fn run_shape<OC: GenericConfig<D, F = F>>(s: &Value, selftest: bool) -> Vec<Valu
     // a second circuit (one more instruction) only lends its verifier data
     let mut prog2 = prog.clone();
     prog2.instrs.push(Instr { op: "mul_const".into(), args: vec![3, 0] });
-    let other_vd = match build_inner(&prog2, &cfg, &inputs, pad) {
+    let other_vd = match build_inner_opt(&prog2, &cfg, &inputs, pad, false) {
         Ok(o) => o.data.verifier_only.clone(),
-        Err(_) => match build_inner(&prog, &cfg, &inputs, pad + 1) {
+        Err(_) => match build_inner_opt(&prog, &cfg, &inputs, pad + 1, false) {
             Ok(o) => o.data.verifier_only.clone(),
             Err(e) => return skip(format!("no second circuit: {e}")),
         },
